@@ -6,5 +6,15 @@ export CARGO_NET_OFFLINE=true
 cp /repo/Cargo.lock harness/Cargo.lock
 python3 tools/gen_tables.py
 (cd harness && cargo build --release --offline 2>&1 | tail -3)
-(cd lean && lake build GrinVerif driver 2>&1 | tail -3)
+MODS=$(python3 - <<'PY'
+import json,os
+en=open('checks/enabled.txt').read().split()
+mods=[]
+for p in en:
+    c=json.load(open(f'checks/{p}.json'))
+    mods+=c.get('props_modules',[])
+print(' '.join(sorted(set(mods))))
+PY
+)
+(cd lean && lake build driver $MODS 2>&1 | tail -3)
 echo setup done
